@@ -239,7 +239,7 @@ func emit(out *lib.Out, spec RoundSpec, obs RoundObs) {
 				}
 			}
 		}
-		smallPool = d.PrepareStmt && d.Conns < d.G && hasTx
+		smallPool = (d.PrepareStmt || d.SessionPrep) && d.Conns < d.G && hasTx
 		var fams []string
 		seen := map[string]bool{}
 		ops := 0
@@ -257,11 +257,11 @@ func emit(out *lib.Out, spec RoundSpec, obs RoundObs) {
 				out.Count("db_op_kinds", o.Kind)
 			}
 		}
-		shape = fmt.Sprintf("db|G%d|cold=%v|prep=%v|conns=%d|orbase=%v|%s|ops=%d|%v", d.G, d.Cold, d.PrepareStmt, d.Conns, d.OrBase, strings.Join(fams, "+"), ops, kinds)
+		shape = fmt.Sprintf("db|G%d|cold=%v|prep=%v|sessprep=%v|conns=%d|orbase=%v|%s|ops=%d|%v", d.G, d.Cold, d.PrepareStmt, d.SessionPrep, d.Conns, d.OrBase, strings.Join(fams, "+"), ops, kinds)
 		nontriv = d.G >= 2 && ops >= 2*d.G
 		out.Count("db_G", fmt.Sprint(d.G))
 		out.Count("db_cache", map[bool]string{true: "cold", false: "warm"}[d.Cold])
-		out.Count("db_prepare_stmt", fmt.Sprint(d.PrepareStmt))
+		out.Count("db_prepare_stmt", map[bool]string{true: "per-operation Session{PrepareStmt}", false: fmt.Sprint(d.PrepareStmt)}[d.SessionPrep])
 		out.Count("db_conns", fmt.Sprint(d.Conns))
 		out.Count("db_families", strings.Join(fams, "+"))
 		if obs.DB != nil && obs.Serial != nil && !crashed {
